@@ -72,13 +72,23 @@ def r3_query(ctx):
     for cond, val, sp in symex.returns(gs):
         at = f'{gs.module.relpath}:{sp.path.end_node.lineno}'
         ats = G.atoms_of(cond)
-        none_a, empty_a = f'{st_p} is None', f'0 == len({st_p})'
-        if not set(ats) <= {none_a, empty_a}:
-            ctx.violation('R3', at, gs.qualname, 'query-extra-condition', f'get_spine_types branches on `{sorted(set(ats) - {none_a, empty_a})}`')
+        none_a, nonempty_a = f'{st_p} is None', f'nonempty({st_p})'
+        # a first line without any header (blank) may be answered with []
+        blank_as = [a for a in ats if a.endswith(" in [[], ['']]") and 'self.export_string' in a]
+        extra = set(ats) - {none_a, nonempty_a} - set(blank_as)
+        if extra or len(blank_as) > 1:
+            ctx.violation('R3', at, gs.qualname, 'query-extra-condition', f'get_spine_types branches on `{sorted(extra or blank_as)}`')
             continue
         n_ret += 1
-        for none_v, empty_v in ((True, False), (False, True), (False, False)):
-            if not G.evaluate(cond, {a: (none_v if a == none_a else empty_v) for a in ats}):
+        for none_v, empty_v, blank_v in ((True, False, False), (False, True, False), (False, False, False),
+                                         (True, False, True), (False, False, True)):
+            if not G.evaluate(cond, {a: (none_v if a == none_a else (not empty_v) if a == nonempty_a else blank_v) for a in ats}):
+                continue
+            if blank_v and not blank_as:
+                continue
+            if blank_v:
+                ctx.check(src(val) == '[]', 'R3', at, gs.qualname, 'query-blank-line', 'a first line without header cells returns []',
+                          f'a first line without header cells returns `{src(val)[:60]}`')
                 continue
             if (not none_v) and empty_v:
                 ctx.check(src(val) == '[]', 'R3', at, gs.qualname, 'query-empty-selection', 'an empty selection returns []',
